@@ -99,6 +99,47 @@ def build():
                          canaries=['result == str(numerator) + "/" + str(denominator)']))
 
 
+
+    # ------------------------------------------------------------------ _format_decimal without grouping: which roundings produce the digits
+    R15 = z3.Function("sigfig_15_digits_text", FloatS, Str)            # sigfig(value, 15, type=str)
+    RDEC = z3.Function("sigfig_decimals_text", Str, Int, Str)          # sigfig(text, decimals=places, type=str)
+    NEGF = z3.Function("float_negated", FloatS, FloatS)
+    ISINT = z3.Function("float_is_integer", FloatS, Bool)
+    AUTO = extract.module_const("constants", "DECIMAL_PLACES_AUTO")
+
+    def fd_entry(ex):
+        places = ex.fresh("int", "decimal_places")
+        ex.assume(z3.And(places.t >= 0, places.t < AUTO))
+        ns = ex.fresh("int", "negative_style")
+        ex.assume(z3.And(ns.t >= 0, ns.t <= 3))
+        nfmt = PObj("NumberFormat", {"negative_style": ns, "show_thousands_separator": False, "decimal_places": places})
+        return {"value": ex.fresh("float", "value"), "number_format": nfmt, "percent": ex.fresh("bool", "percent")}
+
+    def fd_float_unop(ex, op, a, line):
+        return SFloat(NEGF(a.t))
+    ctx.float_unop = fd_float_unop
+    ctx.method_models = getattr(ctx, "method_models", {})
+
+    def fd_post(ex, env):
+        v = env["value"].t
+        f = env["number_format"].fields
+        ns, places = T(f["negative_style"]), T(f["decimal_places"])
+        isneg = neg(v)
+        shown = z3.If(z3.And(isneg, ns >= 1), NEGF(v), v)
+        digits = RDEC(R15(shown), places)
+        body = z3.If(lift(env["percent"]), z3.Concat(digits, z3.StringVal("%")), digits)
+        want = z3.If(z3.And(isneg, ns >= 2), z3.Concat(z3.StringVal("("), body, z3.StringVal(")")), body)
+        return lift(env["result"]) == want
+    fd_post.__name__ = ("fixed decimals, no grouping: the digits are sigfig(sigfig(x, 15 significant digits), decimals=places) of x = the value (negative "
+                        "styles 1-3: of its magnitude), then '%' for percentages, then parentheses for negative values under styles 2-3 - two roundings, "
+                        "in that order, and nothing else touches a digit")
+    plan.target(Contract(
+        "cell:_format_decimal", label="fixed-places-no-grouping", entry=fd_entry, ensures=[fd_post], safety="fork", result="str", search=srch,
+        opaque={"sigfig(value, MAX_SIGNIFICANT_DIGITS, type=str, warn=False)": lambda ex, env: SStr(R15(env["value"].t)),
+                "sigfig(formatted_value, decimals=number_format.decimal_places, type=str)":
+                    lambda ex, env: SStr(RDEC(lift(env["formatted_value"]), T(env["number_format"].fields["decimal_places"]))),
+                "value.is_integer()": lambda ex, env: SBool(ISINT(env["value"].t))}))
+
     # ------------------------------------------------------------------ _format_base: the digit loop (every integer, every base 2..36)
     from pyvc.ctx import LoopSpec
     from pyvc.plan import Lemma
